@@ -392,8 +392,15 @@ func RunIterFresh(w *World, r *Report, fns []*ssa.Function) {
 				for v := range web {
 					if refs := v.Referrers(); refs != nil {
 						for _, ref := range *refs {
-							if sl, ok := ref.(*ssa.Slice); ok && sl.X == v && sl.Low == nil && sl.High != nil {
-								if c, ok := bconstInt(sl.High); ok && c == 0 {
+							if sl, ok := ref.(*ssa.Slice); ok && sl.X == v && sl.Low == nil && sl.High != nil && l.body[sl.Block()] {
+								// cut back to the empty slice, or to a prefix whose length does not
+								// change from iteration to iteration (a constant, a value computed
+								// before the loop): what earlier iterations appended is dropped
+								if _, isC := bconstInt(sl.High); isC {
+									reset = true
+								} else if hi, ok := sl.High.(ssa.Instruction); ok && !l.body[hi.Block()] {
+									reset = true
+								} else if _, isParam := sl.High.(*ssa.Parameter); isParam {
 									reset = true
 								}
 							}
